@@ -71,6 +71,7 @@ type lp struct {
 	tgt     packet.Addr
 	arrived int // number of gate arrivals
 	sleeps  int // number of times the loop entered its select (ICMPv6)
+	wakeDue bool // the channel the loop captured at its check has been closed while it was between check and select
 }
 
 // ctl is the scheduler of the loops and the event log. One per process (the hooks are package globals).
